@@ -750,7 +750,12 @@ impl RenderContext {
             return Err(Error::IncompleteFrame);
         }
 
-        let lf_frame_idx = self.lf_frame[header.lf_level as usize];
+        // Only frames that use an LF frame have an LF slot (an LF frame itself may have lf_level 4).
+        let lf_frame_idx = if header.flags.use_lf_frame() {
+            self.lf_frame[header.lf_level as usize]
+        } else {
+            usize::MAX
+        };
         if header.flags.use_lf_frame() {
             self.spawn_renderer(lf_frame_idx);
         }
